@@ -94,24 +94,30 @@ def lexNumber (s : List Char) : Option (List Char × List Char) :=
     else some (lexExp (sg.1 ++ ip.1 ++ '.' :: fp.1) fp.2)
   | r1 => if ip.1.isEmpty then none else some (lexExp (sg.1 ++ ip.1) r1)
 
+/-- value of an optional exponent part `(e|E) sign? digits` at the start of `r` (0 if there is none) -/
+def expOf (r : List Char) : Int :=
+  match r with
+  | e :: r' =>
+    if isExpChar e then
+      let sg2 := takeSign r'
+      let ds := spanD sg2.2
+      if sg2.1 == ['-'] then -(digitsVal ds.1 : Int) else (digitsVal ds.1 : Int)
+    else 0
+  | [] => 0
+
+/-- fraction digits after the integer part and what follows them -/
+def fracOf (r : List Char) : List Char × List Char :=
+  match r with
+  | '.' :: r' => spanD r'
+  | r1 => ([], r1)
+
 /-- exact value of a number lexeme -/
 def numVal (s : List Char) : Rat :=
   let sg := takeSign s
-  let neg := sg.1 == ['-']
   let ip := spanD sg.2
-  let (fp, r2) : List Char × List Char := match ip.2 with
-    | '.' :: r => spanD r
-    | r1 => ([], r1)
-  let ex : Int := match r2 with
-    | e :: r' =>
-      if isExpChar e then
-        let sg2 := takeSign r'
-        let ds := spanD sg2.2
-        if sg2.1 == ['-'] then -(digitsVal ds.1 : Int) else (digitsVal ds.1 : Int)
-      else 0
-    | [] => 0
-  let m : Rat := ((digitsVal (ip.1 ++ fp) : Nat) : Rat) * pow10 (ex - fp.length)
-  if neg then -m else m
+  let fr := fracOf ip.2
+  let m : Rat := ((digitsVal (ip.1 ++ fr.1) : Nat) : Rat) * pow10 (expOf fr.2 - fr.1.length)
+  if sg.1 == ['-'] then -m else m
 
 /-! ## tokens -/
 
